@@ -172,18 +172,23 @@ type c50Profile struct {
 	p            *Profile
 	maps         bool // applies the UTS 46 mapping first (case folding, ideographic dots -> '.')
 	transitional bool
+	// class groups profiles by how U-label input is validated (signatures of
+	// the idempotence/round-trip clauses carry it): raw = nothing, validate-only
+	// = ValidateLabels without a validating mapping, mapping = UTS 46
+	// validateAndMap, registration = validateRegistration.
+	class string
 }
 
 func c50Profiles() []c50Profile {
 	return []c50Profile{
-		{name: "Punycode", p: Punycode},
-		{name: "Lookup", p: Lookup, maps: true},
-		{name: "Display", p: Display, maps: true},
-		{name: "Registration", p: Registration},
-		{name: "New()", p: New()},
-		{name: "New(MapForLookup,Transitional)", p: New(MapForLookup(), Transitional(true)), maps: true, transitional: true},
-		{name: "New(ValidateLabels)", p: New(ValidateLabels(true))},
-		{name: "New(MapForLookup,BidiRule,VerifyDNSLength)", p: New(MapForLookup(), BidiRule(), VerifyDNSLength(true)), maps: true},
+		{name: "Punycode", p: Punycode, class: "raw"},
+		{name: "Lookup", p: Lookup, maps: true, class: "mapping"},
+		{name: "Display", p: Display, maps: true, class: "mapping"},
+		{name: "Registration", p: Registration, class: "registration"},
+		{name: "New()", p: New(), class: "raw"},
+		{name: "New(MapForLookup,Transitional)", p: New(MapForLookup(), Transitional(true)), maps: true, transitional: true, class: "mapping"},
+		{name: "New(ValidateLabels)", p: New(ValidateLabels(true)), class: "validate-only"},
+		{name: "New(MapForLookup,BidiRule,VerifyDNSLength)", p: New(MapForLookup(), BidiRule(), VerifyDNSLength(true)), maps: true, class: "mapping"},
 	}
 }
 
@@ -196,13 +201,13 @@ type c50Case struct {
 // c50ALabels returns, for every label of x the profile will treat as an
 // A-label, the classification of its payload by the reference decoder:
 // "" (valid, decodes to something non-ASCII), "empty-payload",
-// "invalid-payload", "ascii-only-payload"; deviation reports whether a valid
+// "non-ascii-payload", "malformed-payload", "ascii-only-payload"; deviation reports whether a valid
 // one decodes to a UTS 46 deviation character.
 func c50ALabels(pr c50Profile, x string) (worst string, any, deviation bool) {
 	if pr.maps {
 		x = strings.NewReplacer("。", ".", "．", ".", "｡", ".").Replace(x)
 	}
-	rank := map[string]int{"": 0, "ascii-only-payload": 1, "empty-payload": 2, "invalid-payload": 3}
+	rank := map[string]int{"": 0, "ascii-only-payload": 1, "empty-payload": 2, "non-ascii-payload": 3, "malformed-payload": 4}
 	for _, l := range strings.Split(x, ".") {
 		if pr.maps {
 			l = strings.Map(func(r rune) rune {
@@ -222,8 +227,10 @@ func c50ALabels(pr c50Profile, x string) (worst string, any, deviation bool) {
 		switch {
 		case payload == "":
 			cls = "empty-payload"
+		case !ok && strings.IndexFunc(payload, func(r rune) bool { return r >= 0x80 }) >= 0:
+			cls = "non-ascii-payload" // RFC 3492 6.2: fail on any non-basic code point in the input
 		case !ok:
-			cls = "invalid-payload"
+			cls = "malformed-payload"
 		default:
 			cls = "ascii-only-payload"
 			for _, r := range u {
@@ -270,11 +277,11 @@ func c50Check(w *vx.W, profs []c50Profile, cs c50Case) {
 	// (2a) idempotence
 	a2, err2 := p.ToASCII(a)
 	if err2 != nil {
-		w.Failf("C50/idempotence/output-rejected", "%s.ToASCII(%q) = %q, nil but ToASCII of that result fails: %q, %v", pr.name, x, a, a2, err2)
+		w.Failf("C50/idempotence/output-rejected/"+pr.class, "%s.ToASCII(%q) = %q, nil but ToASCII of that result fails: %q, %v", pr.name, x, a, a2, err2)
 		return
 	}
 	if a2 != a {
-		w.Failf("C50/idempotence/output-changes", "%s.ToASCII(%q) = %q but ToASCII(%q) = %q", pr.name, x, a, a, a2)
+		w.Failf("C50/idempotence/output-changes/"+pr.class, "%s.ToASCII(%q) = %q but ToASCII(%q) = %q", pr.name, x, a, a, a2)
 		return
 	}
 	for i := 0; i < len(a); i++ {
@@ -294,11 +301,11 @@ func c50Check(w *vx.W, profs []c50Profile, cs c50Case) {
 	default:
 		a3, err3 := p.ToASCII(u)
 		if err3 != nil {
-			w.Failf("C50/roundtrip/tounicode-output-rejected", "%s: ToASCII(%q) = %q and ToUnicode = %q, both nil, but ToASCII(%q) fails: %v", pr.name, x, a, u, u, err3)
+			w.Failf("C50/roundtrip/tounicode-output-rejected/"+pr.class, "%s: ToASCII(%q) = %q and ToUnicode = %q, both nil, but ToASCII(%q) fails: %v", pr.name, x, a, u, u, err3)
 			return
 		}
 		if a3 != a {
-			w.Failf("C50/roundtrip/differs", "%s: ToASCII(%q) = %q, ToUnicode = %q, but ToASCII(%q) = %q", pr.name, x, a, u, u, a3)
+			w.Failf("C50/roundtrip/differs/"+pr.class, "%s: ToASCII(%q) = %q, ToUnicode = %q, but ToASCII(%q) = %q", pr.name, x, a, u, u, a3)
 			return
 		}
 		if a == x {
@@ -314,13 +321,13 @@ func c50Labels(thorough bool) []string {
 	l := []string{
 		"a", "xn--abc-", "xn--a-", "xn--", "ü", "xn--bcher-kva",
 		"a-b", "-a", "xn---", "xn----", "xn--a", "xn--ABC-", "xn--a-b-",
-		"XN--BCHER-KVA", "xn--bcher-kvA", "XN--ABC-", "Xn--abc-", "xn--80ak6aa92e", "xn--!", "xn--\u0080", "xn--ü", "xn--999999999", "xn--9", "xn--99999a",
-		"xn--zca", "xn--3xa", "xn--tda-", "xn--bcher-kva-",
+		"XN--BCHER-KVA", "xn--bcher-kvA", "XN--ABC-", "Xn--abc-", "xn--80ak6aa92e", "xn--!", "xn--\u0080", "xn--ü", "xn--ü-", "xn--999999999", "xn--9", "xn--99999a",
+		"xn--zca", "xn--3xa", "xn--tda-", "xn--bcher-kva-", "xn--xn---epa",
 		"ß", "ς", "İ", "\u0301a", "u\u0308", "a\u200db", "\u0915\u094d\u200d", "\u0644\u200c\u0644",
 		"\u05d0", "\u0661", "a\u0661", "\U00010000", "\U0001f600", "A", "BÜCHER",
 	}
 	if thorough {
-		l = append(l, "ab--c", "xn--a-b", "xn---a", "xn--a--", "xn--0", "xn--ls8h", "xn--1ch", "xn--u-ccb", "xn--xn--abc--", "xn--xn---epa",
+		l = append(l, "ab--c", "xn--a-b", "xn---a", "xn--a--", "xn--0", "xn--ls8h", "xn--1ch", "xn--u-ccb", "xn--xn--abc--",
 			"\uff58\uff4e\uff0d\uff0dabc-", "\u00b9", "\ufb00", "_", "a_b", "1", "\u05d01", "1\u05d0", "\u0660\u06f0",
 			strings.Repeat("a", 63), strings.Repeat("a", 64), "xn--"+strings.Repeat("a", 59)+"-", "ü"+strings.Repeat("a", 60))
 	}
